@@ -152,7 +152,7 @@ impl Property for C09 {
         // outside the recorded listener events is only visible there
         p.wiring_p_pct = 30;
         let mut t = gen::trace("C09", seed, index, &p);
-        if t.wiring == crate::trace::Wiring::Q && t.bytes_total() <= 40 && r.chance(1, 4) {
+        if t.wiring == crate::trace::Wiring::Q && t.bytes_total() <= gen::bound(40) && r.chance(1, 4) {
             // fault-point enumeration: one more resize at EVERY operation boundary
             let g = gen::Geo { cols: t.columns, lines: t.lines };
             let (l, c) = gen::resize_target(&mut r, g, g);
@@ -178,7 +178,7 @@ impl Property for C09 {
         cov.hit("runs_wiring_q");
         if let [u32::MAX, l, c] = trace.extra.as_slice() {
             if *l >= 1 && *c >= 1 {
-                for k in 0..=stats.own_ops.min(48) {
+                for k in 0..=stats.own_ops.min(gen::bound(48) as u64) {
                     let inj = vec![(k, Op::Resize(Some(*l), Some(*c)))];
                     cov.hit("resize_positions_enumerated");
                     let mut o2 = Obs09 { cov: &mut Coverage::default(), big };
@@ -351,7 +351,7 @@ impl Property for C10 {
         // insertion points are operation indices; the number of operations is not known at
         // generation time, so draw from a generous range
         let upper = (t.bytes_total() as u64 + t.steps.len() as u64 + 2).min(600);
-        if upper <= 40 && r.chance(1, 2) {
+        if upper <= gen::bound(40) as u64 && r.chance(1, 2) {
             t.extra = vec![u32::MAX];
         } else {
             let k = r.range(1, 6);
@@ -371,7 +371,7 @@ impl Property for C10 {
             // first run with no interposed call tells how many operations there are
             let stats = run_with(vec![], cov)?;
             common_cov(cov, &stats);
-            for k in 0..stats.ops.min(60) as u32 {
+            for k in 0..stats.ops.min(gen::bound(60) as u64) as u32 {
                 cov.hit("insertion_points_enumerated");
                 run_with(vec![k], cov).map_err(|mut v| {
                     let mut t = trace.clone();
